@@ -241,12 +241,38 @@ func handshakeCase(r *sim.Rng, cw *sim.CaseWriter) {
 	km, _ := crypto.NewBLS12381PrivateKey()   // the attacker's identity
 	eph, _ := crypto.NewEd25519PrivateKey()
 	c1, c2 := net.Pipe()
-	kind := []string{"honest-proof", "proof-of-another-session", "foreign-key-own-signature", "meta-signed-by-another-key", "other-network", "other-chain", "honest-proof"}[r.Intn(7)]
-	otherChallenge := r.Bytes(32) // the challenge of the attacker's session with A, which A signed in good faith
+	kind := []string{"honest-proof", "proof-of-another-session", "foreign-key-own-signature", "meta-signed-by-another-key", "other-network", "other-chain", "honest-proof", "relayed-session", "relayed-session"}[r.Intn(9)]
+	otherChallenge := r.Bytes(32) // (proof-of-another-session) some other challenge, signed by A
+	// (relayed-session) a REAL session between the honest A and the attacker, in which A proves its identity in good faith: what A
+	// presented there (its signature over that session's challenge, its signed meta) is what a man in the middle can relay to B
+	var relayedSig *lib.Signature
+	var relayedMeta *lib.PeerMeta
+	if kind == "relayed-session" {
+		a1, m1 := net.Pipe()
+		eph1, _ := crypto.NewEd25519PrivateKey()
+		var wg1 sync.WaitGroup
+		wg1.Add(2)
+		go func() { defer wg1.Done(); _, _ = p2p.NewHandshake(a1, meta(), kaID) }()
+		go func() {
+			defer wg1.Done()
+			_, _, relayedSig, relayedMeta, _ = p2p.VerifAttackerHandshake(m1, eph1.PublicKey().Bytes(), eph1.Bytes(),
+				func(ch []byte) *lib.Signature { return &lib.Signature{PublicKey: km.PublicKey().Bytes(), Signature: km.Sign(ch)} },
+				func() *lib.PeerMeta { return meta().Sign(km) })
+		}()
+		wg1.Wait()
+		a1.Close()
+		m1.Close()
+		if relayedSig == nil || relayedMeta == nil {
+			kind = "honest-proof" // the first session did not complete (not expected)
+			st.Hand["relayed-session:first-session-failed"]++
+		}
+	}
 	proof := func(challenge []byte) *lib.Signature {
 		switch kind {
 		case "proof-of-another-session":
 			return &lib.Signature{PublicKey: kaID.PublicKey().Bytes(), Signature: kaID.Sign(otherChallenge)}
+		case "relayed-session":
+			return relayedSig
 		case "foreign-key-own-signature":
 			return &lib.Signature{PublicKey: kaID.PublicKey().Bytes(), Signature: km.Sign(challenge)}
 		default:
@@ -263,6 +289,9 @@ func handshakeCase(r *sim.Rng, cw *sim.CaseWriter) {
 		}
 		if kind == "meta-signed-by-another-key" {
 			return m.Sign(kaID)
+		}
+		if kind == "relayed-session" {
+			return relayedMeta
 		}
 		return m.Sign(km)
 	}
@@ -295,6 +324,8 @@ func handshakeCase(r *sim.Rng, cw *sim.CaseWriter) {
 	switch kind {
 	case "proof-of-another-session":
 		signer, signedChallenge, metaSigner = 1, "dh 30 21", 2
+	case "relayed-session":
+		signer, signedChallenge, metaSigner = 1, "dh 30 21", 1
 	case "foreign-key-own-signature":
 		signer, signedChallenge, metaSigner = 1, "0", 2 // the claimed identity signed nothing: the attacker's signature does not verify under A's key
 	case "meta-signed-by-another-key":
